@@ -535,7 +535,14 @@ Inductive shaped : list fld -> rdata -> Prop :=
 | sh_cnt8 d fs r : zlen d <= 255 -> shaped fs r -> shaped (FCnt8 :: fs) (PB (zlen d :: d) :: r)
 | sh_rest1 b : b <> [] -> shaped [FRest1] [PB b]
 | sh_chk k b : chk k b = true -> shaped [FChk k] [PB b]
-| sh_namex n fs r : shaped fs r -> shaped (FNameX :: fs) (PX n :: r).
+| sh_namex n fs r : shaped fs r -> shaped (FNameX :: fs) (PX n :: r)
+| sh_gw0 n i mk b fs r : length b = n -> Z.land (nth i b 0) mk = 0 -> shaped fs r ->
+    shaped (FGw n i mk :: fs) (PB b :: r)
+| sh_gwip n i mk b a fs r : length b = n ->
+    (Z.land (nth i b 0) mk = 1 /\ length a = 4%nat) \/ (Z.land (nth i b 0) mk = 2 /\ length a = 16%nat) -> shaped fs r ->
+    shaped (FGw n i mk :: fs) (PB b :: PB a :: r)
+| sh_gwn n i mk b nm fs r : length b = n -> Z.land (nth i b 0) mk = 3 -> shaped fs r ->
+    shaped (FGw n i mk :: fs) (PB b :: PX nm :: r).
 
 Lemma txt_loop_ok : forall ss pre post fuel endp count,
   Forall (fun s => zlen s <= 255) ss ->
@@ -601,7 +608,7 @@ Lemma rd_em_read o : org_ok o -> forall fs rd, shaped fs rd ->
         = Ok (rev acc ++ rd', length (file ++ em))) /\
       (forall tq, tbl_ci tq t -> exists tq', rd_em rd' o c (zlen file) tq = Ok (em, tq') /\ tbl_ci tq' t').
 Proof.
-  intros OO fs rd S. induction S as [|n b fs r Hb S IH|n fs r S IH|n fs r S IH|n fs r NOa S IH|b|d fs r Hd S IH|mx v fs r Hv Hv2 S IH|b Hb|d fs r Hd S IH|b Hne|k b Hck|n fs r S IH];
+  intros OO fs rd S. induction S as [|n b fs r Hb S IH|n fs r S IH|n fs r S IH|n fs r NOa S IH|b|d fs r Hd S IH|mx v fs r Hv Hv2 S IH|b Hb|d fs r Hd S IH|b Hne|k b Hck|n fs r S IH|n i mk b fs r Hb Ht S IH|n i mk b a fs r Hb Ht S IH|n i mk b nm fs r Hb Ht S IH];
     intros c file t em t' TS PO H.
   - injection H as <- <-. rewrite app_nil_r. split; [exact TS|]. exists []. split; [constructor|]. split; [constructor|]. split; [constructor|]. split.
     + intros ext acc. cbn [dec_fields]. rewrite app_nil_r. reflexivity.
@@ -819,6 +826,79 @@ Proof.
     replace ((file ++ e1) ++ e2 ++ ext) with (((file ++ e1) ++ e2) ++ ext) by (rewrite <- !app_assoc; reflexivity).
     replace (length (file ++ e1 ++ e2)) with (length ((file ++ e1) ++ e2)) by (rewrite <- app_assoc; reflexivity).
     rewrite RD. cbn [rev]. rewrite <- app_assoc. reflexivity.
+  - (* FGw, nothing *)
+    cbn [rd_em] in H. apply bind_ok in H. destruct H as ([e2 t2] & H2 & H). injection H as <- <-.
+    inversion PO as [|? ? _ PO']; subst. rewrite <- zlen_app' in H2.
+    destruct (IH c (file ++ b) t e2 t2 (TableSound_app _ _ _ TS) PO' H2) as (TS' & rd' & CI & PO2 & S' & RD & RE).
+    rewrite <- app_assoc in TS'. split; [exact TS'|]. exists (PB b :: rd').
+    split; [apply rdata_ci_refl_pb; exact CI|]. split; [constructor; [exact Logic.I|exact PO2]|].
+    split; [apply sh_gw0; [reflexivity|exact Ht|exact S']|].
+    split; [|intros tq TC; destruct (RE tq TC) as (tq' & E & TC'); exists tq'; split; [|exact TC']; cbn [rd_em]; rewrite <- zlen_app'; rewrite E; reflexivity].
+    intros ext acc. cbn [dec_fields].
+    replace ((file ++ b ++ e2) ++ ext) with (file ++ b ++ (e2 ++ ext)) by (rewrite <- !app_assoc; reflexivity).
+    rewrite rd_bytes_at by (rewrite !app_length; lia). cbn [bind]. rewrite Ht. change (0 =? 0) with true. cbv iota.
+    replace (file ++ b ++ e2 ++ ext) with (((file ++ b) ++ e2) ++ ext) by (rewrite <- !app_assoc; reflexivity).
+    replace (length file + length b)%nat with (length (file ++ b)) by (rewrite app_length; reflexivity).
+    replace (length (file ++ b ++ e2)) with (length ((file ++ b) ++ e2)) by (rewrite <- app_assoc; reflexivity).
+    rewrite RD. cbn [rev]. rewrite <- app_assoc. reflexivity.
+  - (* FGw, an address *)
+    cbn [rd_em] in H. apply bind_ok in H. destruct H as ([e2 t2] & H2 & H). injection H as <- <-.
+    apply bind_ok in H2. destruct H2 as ([e3 t3] & H3 & H2). injection H2 as <- <-.
+    inversion PO as [|? ? _ PO1]; subst. inversion PO1 as [|? ? _ PO']; subst.
+    rewrite <- zlen_app' in H3. rewrite <- zlen_app' in H3.
+    assert (TSa : TableSound ((file ++ b) ++ a) t) by (apply TableSound_app; apply TableSound_app; exact TS).
+    destruct (IH c ((file ++ b) ++ a) t e3 t3 TSa PO' H3) as (TS' & rd' & CI & PO2 & S' & RD & RE).
+    replace (file ++ b ++ a ++ e3) with (((file ++ b) ++ a) ++ e3) by (rewrite <- !app_assoc; reflexivity).
+    split; [exact TS'|]. exists (PB b :: PB a :: rd').
+    split; [apply rdata_ci_refl_pb; apply rdata_ci_refl_pb; exact CI|].
+    split; [constructor; [exact Logic.I|constructor; [exact Logic.I|exact PO2]]|].
+    split; [apply sh_gwip; [reflexivity|exact Ht|exact S']|].
+    split; [|intros tq TC; destruct (RE tq TC) as (tq' & E & TC'); exists tq'; split; [|exact TC']; cbn [rd_em]; rewrite <- !zlen_app'; rewrite E; reflexivity].
+    intros ext acc. cbn [dec_fields].
+    replace ((((file ++ b) ++ a) ++ e3) ++ ext) with (file ++ b ++ (a ++ e3 ++ ext)) by (rewrite <- !app_assoc; reflexivity).
+    rewrite rd_bytes_at by (rewrite !app_length; lia). cbn [bind].
+    assert (Hk : (if Z.land (nth i b 0) mk =? 1 then 4%nat else 16%nat) = length a).
+    { destruct Ht as [(E & L)|(E & L)]; rewrite E; cbn; lia. }
+    assert (Hsel : (Z.land (nth i b 0) mk =? 0) = false /\ ((Z.land (nth i b 0) mk =? 1) || (Z.land (nth i b 0) mk =? 2)) = true).
+    { destruct Ht as [(E & L)|(E & L)]; rewrite E; split; reflexivity. }
+    destruct Hsel as (S0 & S12). rewrite S0, S12. cbv iota. rewrite Hk.
+    replace (file ++ b ++ a ++ e3 ++ ext) with ((file ++ b) ++ a ++ (e3 ++ ext)) by (rewrite <- !app_assoc; reflexivity).
+    replace (length file + length b)%nat with (length (file ++ b)) by (rewrite app_length; reflexivity).
+    rewrite rd_bytes_at by (rewrite !app_length; lia). cbn [bind].
+    replace ((file ++ b) ++ a ++ e3 ++ ext) with ((((file ++ b) ++ a) ++ e3) ++ ext) by (rewrite <- !app_assoc; reflexivity).
+    replace (length (file ++ b) + length a)%nat with (length ((file ++ b) ++ a)) by (rewrite app_length; reflexivity).
+    rewrite RD. cbn [rev]. rewrite <- !app_assoc. reflexivity.
+  - (* FGw, a name *)
+    cbn [rd_em] in H. apply bind_ok in H. destruct H as ([e0 t0] & H0 & H). injection H as <- <-.
+    apply bind_ok in H0. destruct H0 as ([e1 t1] & H1 & H0).
+    apply bind_ok in H0. destruct H0 as ([e2 t2] & H2 & H0). injection H0 as <- <-. cbn [fst snd] in *.
+    inversion PO as [|? ? _ PO1]; subst. inversion PO1 as [|? ? NW PO']; subst. cbn [piece_wf] in NW.
+    rewrite <- zlen_app' in H1.
+    destruct (name_wf_full o nm OO NW) as (L & HF & NOL).
+    destruct (nm_em_sound_sim _ _ _ _ _ _ _ _ (TableSound_app _ _ _ TS) HF NOL H1) as (TS1 & L' & SL & NO1 & D1).
+    destruct (name_back_sim o nm L L' _ _ OO NW HF SL NO1) as (n' & X & HRZ & CI1 & NW1 & HFX & SX).
+    assert (n' = nm).
+    { cbn [Lsim] in SX. subst X. exact (full_labels_inj o nm n' L NW NW1 CI1 HF HFX). }
+    subst n'.
+    rewrite <- !zlen_app' in H2.
+    destruct (IH c ((file ++ b) ++ e1) t1 e2 t2 TS1 PO' H2) as (TS' & rd' & CI & PO2 & S' & RD & RE).
+    replace (file ++ b ++ e1 ++ e2) with (((file ++ b) ++ e1) ++ e2) by (rewrite <- !app_assoc; reflexivity).
+    split; [exact TS'|]. exists (PB b :: PX nm :: rd').
+    split; [apply rdata_ci_refl_pb; constructor; [reflexivity|exact CI]|].
+    split; [constructor; [exact Logic.I|constructor; [exact NW1|exact PO2]]|].
+    split; [apply sh_gwn; [reflexivity|exact Ht|exact S']|].
+    split; [|intros tq TC; destruct (nm_em_resim nm nm o false (zlen (file ++ b)) tq t e1 t1 L L TC HF HF eq_refl H1) as (tq1 & E1 & TC1); destruct (RE tq1 TC1) as (tq' & E2 & TC'); exists tq'; split; [|exact TC']; cbn [rd_em]; rewrite <- zlen_app'; rewrite E1; cbn [bind fst snd]; rewrite <- zlen_app'; rewrite E2; reflexivity].
+    intros ext acc. cbn [dec_fields].
+    replace ((((file ++ b) ++ e1) ++ e2) ++ ext) with (file ++ b ++ (e1 ++ e2 ++ ext)) by (rewrite <- !app_assoc; reflexivity).
+    rewrite rd_bytes_at by (rewrite !app_length; lia). cbn [bind]. rewrite Ht.
+    change (3 =? 0) with false. change ((3 =? 1) || (3 =? 2)) with false. change (3 =? 3) with true. cbv iota.
+    rewrite (get_name_relz o _ _ _ OO).
+    replace (file ++ b ++ e1 ++ e2 ++ ext) with (((file ++ b) ++ e1) ++ (e2 ++ ext)) by (rewrite <- !app_assoc; reflexivity).
+    replace (length file + length b)%nat with (length (file ++ b)) by (rewrite app_length; reflexivity).
+    rewrite (nm_read (file ++ b) e1 (e2 ++ ext) _ L' NO1 D1) by (rewrite !app_length; lia). cbn [bind fst snd].
+    rewrite HRZ. cbn [bind fst snd].
+    replace (((file ++ b) ++ e1) ++ e2 ++ ext) with ((((file ++ b) ++ e1) ++ e2) ++ ext) by (rewrite <- !app_assoc; reflexivity).
+    rewrite RD. cbn [rev]. rewrite <- !app_assoc. reflexivity.
 Qed.
 
 (* ---------- one RR ---------- *)
